@@ -135,6 +135,9 @@ func (g *G) IntExpr(depth int) string {
 	case 7:
 		return "(" + a + " << " + fmt.Sprint(g.Int(0, 3, "shl")) + ")"
 	default:
+		if strings.HasPrefix(a, "-") {
+			return "(-(" + a + "))" // "--1" would be a decrement
+		}
 		return "(-" + a + ")"
 	}
 }
